@@ -322,10 +322,16 @@ pub fn execute(sc: &RenderScenario, stats: &mut Stats) -> Outcome {
             // ---- reference: perfect writer
             let steps0 = engine::steps();
             let mut w = SimWriter::new(WPlan::perfect());
-            let r = match catch(|| run_target(&t, target, ctx, &mut w)) {
+            // bounded liveness without a wall clock: the generator keeps predicted work far below
+            engine::set_step_limit(engine::steps() + 50_000_000);
+            let rr = catch(|| run_target(&t, target, ctx, &mut w));
+            engine::clear_step_limit();
+            let hit = engine::step_limit_hit();
+            let r = match rr {
                 Ok(r) => r,
                 Err(p) => {
-                    out.violations.push(Violation::new("C07", "panic-in-render", format!("target {} ctx {}: {}", ti, ci, p)));
+                    let inv = if hit { "render-exceeds-step-budget" } else { "panic-in-render" };
+                    out.violations.push(Violation::new("C07", inv, format!("target {} ctx {}: {}", ti, ci, p)));
                     continue;
                 }
             };
